@@ -58,6 +58,23 @@ HISTORY = {
     "C19-A": ("C19", "structural element without its optional property nested around one that has it (descendant lookup)", "caught", ""),
     "C19-B": ("C19", "bracket-only radical followed by a run mixing a mapped symbol and the closing bracket", "missed",
               "(pending: builder asked to add such runs to the universe)"),
+    "C02-A2": ("C02", "PPTX slide where a table (graphicFrame with a direct p:xfrm) is followed by a text shape at larger y", "caught", ""),
+    "C02-B2": ("C02", "EPUB chapter: a removed element containing a different removable element with text after it", "caught by C17",
+               "(C02 does not generate removable markup; the C17 check decides this clause)"),
+    "C02-C2": ("C02", "ODF line break inside a span / hyperlink (depth >= 1) with no adjacent white space", "missed",
+               "DocGen paragraph shapes gained breaks and tabs inside link / insertion / inline content control wrappers"),
+    "C03-A2": ("C03", "DOCX outline with a skipped heading level (H1 followed by H3 siblings, or starting with H2)", "missed",
+               "Doc.tla FlowUnits gained the heading-path clause HeadPathOK (path = chain of open headings)"),
+    "C03-B2": ("C03", "mbox envelope sender without '@' (MAILER-DAEMON, root, '-')", "caught by C16",
+               "(C03's document suite has no mailboxes; the C16 check decides mailbox boundaries)"),
+    "C03-C2": ("C03", "EPUB spine item that yields no chapter (SVG page, dangling idref) before later chapters", "missed",
+               "DocGen2 pages gained a gap position; the EPUB writer emits an SVG / dangling spine item for it; PagedUnits counts it as a position"),
+    "C13-A2": ("C13", "DOCX table in a block-level content control with a nested table in one of its cells", "missed",
+               "TablesOK now allows a nested table to be listed at most once (SubseqMatch consumes NestedIn); new shapes sdt(table with nested table), sdt(two tables)"),
+    "C13-B2": ("C13", "ODT nested table whose row sits in table:table-header-rows", "missed",
+               "the ODT writer wraps the first row of every other table in table:table-header-rows"),
+    "C13-C2": ("C13", "ODS sheet whose right-most column holds only falsy typed values (0, FALSE, empty) in every row", "missed",
+               "header-less typed grids (DocGen2 Kind=typedgrid, Doc!TypedGridOK) for ODS"),
 }
 
 
